@@ -8,6 +8,10 @@ NOTE = ('trusted base: clang++-14 front end, the opt-14 passes named in lib/pipe
         'cbmc 6.11 + SAT back end, the harness oracles; allocation failure, use-after-free, leaks and everything outside the stated bounds are not covered')
 
 CLAIMED = {
+    'C08': ('The pop / backjump scenarios of the C07, C09, C10 and C14 checks: after every undo the SAT values are again exactly the consequences of clauses and remaining decisions (entailment + propagation fixpoint over ALL assignments), the difference-logic matrix equals the Floyd-Warshall reference of the remaining constraints, LRA bounds equal their snapshot from before the undone decision, object-variable domains equal their snapshot. Includes decisions that update the same bound / distance twice within one level (through root clauses).', '5 C08'),
+    'C09': ('lra_theory is driven through sat_core on concrete relation sets and histories (assume / pop / root assertion / check / root clauses / late requests): values are checked concretely against every asserted constraint (strictness through the infinitesimal part), every tableau row and the bounds; cbmc decides over ALL grid points (X,Y) in [-6,6]^2 and ALL SAT assignments that bounds contain every solution, every explanation / learnt clause is valid, inconsistency means infeasibility on the grid. Completeness is relative to the grid.', '5 C09/C11'),
+    'C11': ('Every relation literal of lra_theory (fresh, shared through the caches, constant because root bounds decide it, over basic variables, with cancelling variables, requested before or after bounds were tightened) is decided, over ALL grid points and ALL SAT assignments that model the clause database and give every assertion literal its meaning, to be true exactly when its relation holds; a request changes no earlier bound.', '5 C09/C11'),
+    'C18': ('Partial: the API half only. Every query of the C07, C09, C10, C13, C14 and C15-lin checks is re-read for assert() failures (live in the encoding), exceptions escaping noexcept (std::terminate), pure-virtual calls, traps, signed overflow and division by zero. The text-input half (lexer / parser on arbitrary bytes, hangs) could not be encoded (measured, DESIGN.md section 3) and is NOT covered.', '5 C18'),
     'C07': ('The real sat_core (clause database, two-watched-literal propagation, conflict analysis, backjumping, next, check, simplify_db) is executed on concrete clause sets and call histories (curated conflict scenarios plus a seeded sample; systematic families in the thorough tier); after every call cbmc decides over ALL total assignments that every reported value is entailed by the added clauses and standing decisions, every stored or learnt clause is implied, an inconsistency answer means unsatisfiability, and propagation reached its fixpoint. The histories are enumerated, not symbolic (symbolic shapes make cbmc lose constant heap pointers); the quantification over models is symbolic.', '5 C07'),
     'C10': ('idl_theory and rdl_theory are driven through sat_core on concrete constraint sets and assume / pop / root-assert / check histories; after every call cbmc decides for ALL time-point assignments that the reported matrix equals a Floyd-Warshall reference, bounds contain every solution, everything decided is propagated, every explanation / learnt clause is valid under the meaning of its literals, and inconsistency means unsatisfiability. Scenarios are enumerated (curated + seeded sample); the assignment x is symbolic.', '5 C10'),
     'C12': ('The five relation constructors and the bounds / distance / equates queries of idl_theory and rdl_theory are called on concrete expression shapes (coefficients 0,+-1,+-2; integer and half-integer constants; both variable orders; with and without root constraints); cbmc decides for ALL time-point values and ALL SAT assignments compatible with the meaning of the distance literals that the returned literal has the value of the relation, and that query results contain / equal the exact ranges. Three recorded findings delimit input classes that are excluded and re-demonstrated on every run.', '5 C12'),
@@ -26,6 +30,7 @@ NOT_APPLICABLE = {
     'C04': 'state_variable::get_current_incs is a method over live atoms, expr maps and listeners inside a running solver; it cannot be separated from the planner without writing a model of it.',
     'C05': 'same as C04 for reusable_resource (plus MCS extraction over arith_value of live atoms).',
     'C06': 'holds by construction of INIT_STRING + predicate::apply_rule inside the planner; there is no encodable kernel below the planner.',
+    'C16': 'lexer measured: lexer::next() builds std::strings whose length depends on the input bytes; with ONE input byte symbolic over two values cbmc gave no verdict in 100 s, with one fully symbolic byte none in 15 min (concrete input: 2 s); the parser is a virtual-dispatch AST factory with exceptions as control flow, and evaluation goes through core (RTTI, typed catch). The exact-evaluation part of the property (constant expressions, where 3.0*4.0 went wrong) is covered by C15 on lin / rational; tokens, precedence and acceptance are not covered by any check.',
     'C17': 'class hierarchies, constructors, field access and enum unions are the core layer (RTTI, string-keyed scopes, exceptions as control flow); the object-variable encoding underneath is C14.',
     'C19': 'the executor sits on top of a solved planner and its listeners; it is not built by the pinned configuration and is not encodable for the same reasons as C01.',
     'C20': 'needs std::thread / condition_variable / std::function semantics and preemptive interleavings; the translator is sequential and cbmc only models threads of C programs it parses itself. A task-order stub would replace exactly the synchronisation under test.',
